@@ -125,7 +125,7 @@ struct WriteWin {
 };
 
 // fault-injection sites used by payload operations (C20)
-enum Site { SITE_COPY = 0, SITE_ASSIGN = 1, SITE_EQ = 2, SITE_FUNC = 3, SITE_PRED = 4, SITE_CALLBACK = 5, SITE_FUNC2 = 6, SITE_ALLOC = 7 };
+enum Site { SITE_COPY = 0, SITE_ASSIGN = 1, SITE_EQ = 2, SITE_FUNC = 3, SITE_PRED = 4, SITE_CALLBACK = 5, SITE_FUNC2 = 6, SITE_ALLOC = 7, SITE_CTOR = 8 };
 
 // Multi-word payload with invariant a == b whose torn state is observable and
 // whose operations contain scheduling points.
